@@ -30,7 +30,7 @@ TMP = c01.TMP
 
 @st.composite
 def cases(draw, tier):
-    spec = draw(gen.h5_table_specs(tier, allow_empty_axis=True))
+    spec = draw(gen.h5_table_specs(tier, allow_empty_axis=True, poke=True))
     writer = draw(st.sampled_from(["to_hdf5", "save_table", "to_hdf5",
                                    "convert"]))
     if writer == "convert":
@@ -81,6 +81,7 @@ def check(case, rec):
     rec.cls("writer:" + case["writer"])
     rec.cls("empty-axis", n == 0 or m == 0)
     rec.cls("unsorted", lay.get("sorted") is False)
+    rec.cls("stored-zeros", bool(lay.get("stored_zeros")))
     rec.cls("fmt:%s" % lay.get("format"))
     writer = case["writer"]
     if writer == "convert" and (n == 0 or m == 0):
